@@ -12,6 +12,8 @@
 // After the run the complete final states must agree and exactly 521 calls must have happened.  This decides: key cycling,
 // the 18 P XORs, the all-zero first block, chaining, (eksblowfish) salt cycling and XOR order, and the store order -- for the
 // real encryption function, whose conformance on an arbitrary state is decided in conf.rs.
+// Memory: the 256-word S-boxes go through CBMC's array theory; the run peaks at 13-14 GB (measured 237 s and 318 s when it
+// fit, killed twice at the quick tier's 14 GB limit / by the system OOM killer), hence thorough tier with mem=30.
 // Not compared: S-box entries other than the newest pair at calls other than the five checkpoints (comparing all 1042
 // words at each of the 521 calls needs ~88 MB of CBMC memory per call: > 14 GB before a third of the run).  A transient
 // change of such an entry that is undone before the next checkpoint would go unnoticed; nothing else can.
@@ -138,7 +140,7 @@ macro_rules! new_harness {
     };
 }
 
-//@ harness name=bf_new_w_be prop=C09,C20 variants=blowfish tier=quick bits=464 stub=1 est=300 desc="W: Blowfish<BE>::new_from_slice(key[..len]), len symbolic 0..=57: Err exactly outside 4..=56; otherwise the state equals Schneier's key expansion from the pi digits (key bytes cycled, 18 P XORs, 521 chained encryptions, store order), with the block encryption uninterpreted per call; arguments, P array and newest stored pair compared with the oracle's at every call, the full state at calls 0/9/137/265/393 and at the end"
+//@ harness name=bf_new_w_be prop=C09,C20 variants=blowfish tier=thorough bits=464 stub=1 est=320 mem=30 desc="W: Blowfish<BE>::new_from_slice(key[..len]), len symbolic 0..=57: Err exactly outside 4..=56; otherwise the state equals Schneier's key expansion from the pi digits (key bytes cycled, 18 P XORs, 521 chained encryptions, store order), with the block encryption uninterpreted per call; arguments, P array and newest stored pair compared with the oracle's at every call, the full state at calls 0/9/137/265/393 and at the end"
 new_harness!(bf_new_w_be, BE);
-//@ harness name=bf_new_w_le prop=C09,C20 variants=blowfish tier=quick bits=464 stub=1 est=300 desc="W: BlowfishLE::new_from_slice: same key expansion as Blowfish<BE> (keying does not depend on the block byte order), len symbolic 0..=57, co-routine stub as bf_new_w_be"
+//@ harness name=bf_new_w_le prop=C09,C20 variants=blowfish tier=thorough bits=464 stub=1 est=320 mem=30 desc="W: BlowfishLE::new_from_slice: same key expansion as Blowfish<BE> (keying does not depend on the block byte order), len symbolic 0..=57, co-routine stub as bf_new_w_be"
 new_harness!(bf_new_w_le, LE);
